@@ -437,9 +437,17 @@ class MeshStub:
 
 def _quad_mesh_facts(points, cells):
     """exact facts about a quad mesh with rational coordinates: duplicate points, unused points, signed areas, boundary edges"""
-    pts = [tuple(P(v).const_value() for v in row) for row in npmodel.to_obj(points)]
+    def cval(v):
+        # rational coordinates exactly; algebraic constants (cos / sin of section angles, roots) by their 80-digit value
+        v = P(v)
+        if v.is_const():
+            return v.const_value()
+        return Fraction(ring.const_decimal(v))
+
+    pts = [tuple(cval(v) for v in row) for row in npmodel.to_obj(points)]
     cells = npmodel.to_int_array(np.asarray(cells)).tolist()
-    dup = len(pts) - len(set(pts))
+    # duplicates: coordinates that agree to 60 digits (two spellings of one algebraic number differ in the last digits only)
+    dup = len(pts) - len({tuple(round(x, 60) for x in p) for p in pts})
     used = {k for c in cells for k in c}
     unused = len(pts) - len(used)
     areas = []
@@ -575,9 +583,29 @@ def run_bookkeeping(col):
             tol = F(1, 2 * 10 ** d)
             near = all(abs(pn[cn[c, a]][i] - orig[cells[c, a]][i]) <= tol for c in range(2) for a in range(3) for i in range(2))
             apart = all(max(abs(p[i] - q[i]) for i in range(2)) > tol for k, p in enumerate(pn) for q in pn[k + 1:])
-            return len(pn) == 5 and near and apart and sorted(set(cn.reshape(-1).tolist())) == list(range(5)), "mesh/_tools.py merge_duplicate_points: %d points remain (5 expected), cells %s" % (len(pn), cn.tolist())
+            # the rounding serves the *detection* of duplicates: a corner that has no partner to be merged with is not moved at all, and a
+            # merged point sits at the coordinates of one of the points it replaces
+            partner = {1: 3, 3: 1}
+            moved = [(c, a) for c in range(2) for a in range(3) if cells[c, a] not in partner and pn[cn[c, a]] != orig[cells[c, a]]]
+            merged_ok = all(pn[cn[c, a]] in (orig[cells[c, a]], orig[partner[cells[c, a]]]) for c in range(2) for a in range(3) if cells[c, a] in partner)
+            return len(pn) == 5 and near and apart and not moved and merged_ok and sorted(set(cn.reshape(-1).tolist())) == list(range(5)), \
+                "mesh/_tools.py merge_duplicate_points: %d points remain (5 expected), cells %s; corners without a duplicate that were moved (cell, corner): %s; merged points at an original position: %s" % (
+                    len(pn), cn.tolist(), moved, merged_ok)
         col.check("C16.O7", "merge_duplicate_points decimals=%d" % d,
-                  "points that agree after rounding to the given number of decimals are merged; every corner stays within the rounding tolerance; no two remaining points are closer than it; all remaining points are used", chk)
+                  "points that agree after rounding to the given number of decimals are merged (to the position of one of them); no other corner moves; no two remaining points are closer than the tolerance; all remaining points are used", chk)
+    # a copy of a mesh is an independent mesh: the alias entry points (sweep = merge_duplicate_points, ...) stored on the instance act on the
+    # copy, not on the mesh it was copied from
+    def chk_copy_alias():
+        Mesh = it.get("felupe.mesh._mesh:Mesh")
+        src = it.call(Mesh, [P_, cells, "triangle"], {})
+        shifted = npmodel.array([[0, 0], [3, 0], [3, 1], [3, 0], [5, 0], [5, 1]], dtype=npmodel.DType("float"))
+        other = it.call_method(src, "copy", [], dict(points=shifted))
+        a = it.call_method(other, "sweep", [], {})
+        b = it.call_method(other, "merge_duplicate_points", [], {})
+        pa, pb = cvals(npmodel.to_obj(it.getattr(a, "points"))), cvals(npmodel.to_obj(it.getattr(b, "points")))
+        untouched = cvals(npmodel.to_obj(it.getattr(src, "points"))) == cvals(P_)
+        return pa == pb and untouched and [3, 0] in [list(p) for p in pa], "mesh/_discrete_geometry.py DiscreteGeometry.copy: copy.sweep() gives points %s, copy.merge_duplicate_points() %s" % (pa, pb)
+    col.check("C16.O7", "Mesh.copy(points=...).sweep()", "the methods stored on a copied mesh (sweep, the alias of merge_duplicate_points) operate on the copy's own points and cells", chk_copy_alias)
     # dual / disconnect
     dual = it.get("felupe.mesh._dual:dual")
     pn, cn, tn = it.call(dual, [B.points, B.cells, "triangle"], dict(points_per_cell=1))
